@@ -26,3 +26,9 @@ CHECK = {
     "assumptions": ["bound G = 16 eps (cond(JtJ)|JtY| + sqrt(n)|J||Y| + |JtJ||x|); problems with 16 eps cond >= 1e-2 (float beyond cond ~5e3) are counted as vacuous, not as checked",
                     "the estimate size of an object is fixed at construction (the statement varies the data size)"],
 }
+
+# additionally: a reduced workload under valgrind memcheck (uninitialised-value use in the solver's
+# resized, never-initialised buffers is invisible to ASan)
+CHECK["thorough"]["flavours"] = ["asan", "memcheck"]
+CHECK["quick"]["flavours"] = ["asan", "memcheck"]
+CHECK["flavour_cases"] = {"memcheck": {"quick": 400, "thorough": 8000}}
